@@ -60,7 +60,7 @@ class C04(ProgramProperty):
             "Converter(...), the duplicate listing, and the loaders that can express it (from_prefix_map, "
             "from_priority_prefix_map, from_reverse_prefix_map, from_extended_prefix_map via records, from_jsonld); "
             "on success bimap / reverse_bimap / get_prefixes / get_uri_prefixes are read back. Non-trivial = a clash "
-            "involving a synonym, or clashes on both sides at once.")
+            "involving a synonym, or clashes on both sides at once. The same collection also goes through the extended-prefix-map loader (dicts, Record objects, load_extended_prefix_map); two history streams: a merge followed by reuse of the records in a new strict converter, and a merge into a sub-converter that claims a name of a parent record outside the restriction (the parent must stay one-owner unique).")
 
     def budget(self, tier):
         return 3000 if tier == "quick" else 100000
